@@ -107,6 +107,7 @@ fn main() {
             0
         }
         "c14-one" => props::c14::replay_one(&arg(&args, "--fen").unwrap()),
+        "c14-sig" => props::c14::replay_sig(&arg(&args, "--fen").unwrap()),
         "c14-seq" => props::c14::replay_seq(arg(&args, "--a").unwrap().parse().unwrap(), arg(&args, "--b").unwrap().parse().unwrap(), arg(&args, "--c").unwrap().parse().unwrap()),
         "c12" => {
             props::c12::run(&tier, seed, &out);
